@@ -62,10 +62,18 @@ def mutants_for_line(line):
     return out
 
 def sh(cmd, cwd=None, timeout=900, env=None):
+    # own process group, so that a timeout kills the check itself and not only the shell around it
+    p = subprocess.Popen(cmd, shell=True, cwd=cwd, stdout=subprocess.PIPE, stderr=subprocess.STDOUT, env=env, start_new_session=True)
     try:
-        p = subprocess.run(cmd, shell=True, cwd=cwd, timeout=timeout, stdout=subprocess.PIPE, stderr=subprocess.STDOUT, env=env)
-        return p.returncode, p.stdout.decode(errors="replace")
+        out, _ = p.communicate(timeout=timeout)
+        return p.returncode, out.decode(errors="replace")
     except subprocess.TimeoutExpired:
+        import signal
+        try:
+            os.killpg(p.pid, signal.SIGKILL)
+        except ProcessLookupError:
+            pass
+        p.wait()
         return 124, "timeout"
 
 def main():
